@@ -187,6 +187,20 @@ impl Walrus {
                             block.id,
                             off
                         );
+                        // A zeroed or invalid header inside a sealed block is space of a
+                        // rolled-back batch: nothing readable follows in this block, so move
+                        // on to the next one (as batch reads do) instead of stalling forever.
+                        let mut len_probe = [0u8; 2];
+                        block
+                            .mmap
+                            .read((block.offset + off) as usize, &mut len_probe);
+                        let meta_len = (len_probe[0] as usize) | ((len_probe[1] as usize) << 8);
+                        if meta_len == 0 || meta_len > PREFIX_META_SIZE - 2 {
+                            BlockStateTracker::set_checkpointed_true(block.id as usize);
+                            info.cur_block_idx += 1;
+                            info.cur_block_offset = 0;
+                            continue;
+                        }
                         return Ok(None);
                     }
                 }
